@@ -300,6 +300,9 @@ def u2(facts, rep):
     return n
 
 
+CLEAN_LEN = "nomt::beatree::allocator::free_list::CleanFreeList::len"
+
+
 def u3(facts, rep):
     body = facts.body(ALLOCATE)
     n = 0
@@ -321,7 +324,7 @@ def u3(facts, rep):
         if t["k"] != "switch":
             continue
         # the branch is decided by the free list's length: a comparison with it, `idx.checked_sub(len)`, ...
-        if termination.derives_from(body, t["d"], lambda r: r.kind == "call" and str(r.what).endswith("CleanFreeList::len")):
+        if termination.derives_from(body, t["d"], lambda r: r.kind == "call" and str(r.what) == CLEAN_LEN):
             gates.append(sb)
     for (b, ln) in fresh:
         n += 1
